@@ -74,6 +74,8 @@ def adapt_errors(ctx, cases):
         k = factors.index(min(ok[g]))
         f = factors[min(k + 1, len(factors) - 1)]
         chosen[g] = f
+        for m in members:
+            m["AdaptFactor"] = f      # > 1: the reference run of this group does not solve at the error first asked for
         if f != 1.0:
             for m in members:
                 m["Error"] = "%.9e" % (float(m.get("Error") or "1e-5") * f)
